@@ -512,9 +512,9 @@ def mode_rand(out_path, n, seed):
     fam_pairs(log, rng, n)
     fam_near(log, random.Random(seed * 31 + 1), max(20, n // 10), qs=(3, 7, 10) if small else (3, 7, 10, 6, 9, 11, 13))
     fam_floaty(log, random.Random(seed * 31 + 2), max(30, n // 4))
-    fam_big(log, random.Random(seed * 31 + 3), max(10, n // 20))
+    fam_big(log, random.Random(seed * 31 + 3), max(40, n // 20))
     fam_poly(log, random.Random(seed * 31 + 4), max(40, n // 3))
-    fam_eqcmp(log, random.Random(seed * 31 + 5), max(10, n // 20))
+    fam_eqcmp(log, random.Random(seed * 31 + 5), max(40, n // 20))
     log.close()
     print(json.dumps({"goals": log.tid, "macros": log.macros}))
 
